@@ -26,6 +26,10 @@ const c11grace = 200 * time.Millisecond
 const c11wait = 480 * time.Millisecond
 
 func c11exec(c *h.Ctx, cs *h.Case) {
+	if len(cs.Ops) > 0 && strings.HasPrefix(cs.Ops[0], "c11 store ") {
+		c11storeExec(c, cs)
+		return
+	}
 	fixMu.Lock()
 	defer fixMu.Unlock()
 	cl := fix.NewCluster(2, false)
@@ -455,6 +459,7 @@ func c11exec(c *h.Ctx, cs *h.Case) {
 
 func c11gen(c *h.Ctx, yield func(*h.Case)) {
 	r := c.Rng
+	defer c11storeGen(c, yield)
 	// corpus: late message during the grace period (kept the tree for ever before the repair);
 	// a run re-using the tree during the grace period; two instances sharing the tree
 	yield(&h.Case{Class: "corpus-late", Ops: []string{"c11 localstart 1", "c11 done 1", "c11 arrive 1 5", "c11 thread 1 5"}})
@@ -533,5 +538,5 @@ func c11gen(c *h.Ctx, yield func(*h.Case)) {
 
 func init() {
 	// isolated: a listed instance whose tree was released crashes the process from its reader goroutine
-	h.RegisterProp(h.Prop{Name: "c11", Gen: c11gen, Exec: c11exec, Isolate: true, Timeout: 90 * time.Second})
+	h.RegisterProp(h.Prop{Name: "c11", Gen: c11gen, Exec: c11exec, Isolate: true, Workers: 4, Timeout: 90 * time.Second})
 }
